@@ -224,6 +224,10 @@ def _fix_l4_sum(frame, off):
   return bytes(f)
 
 
+class Unspecified(Exception):
+  """the specification does not define the outcome"""
+
+
 def apply_action(frame, a):
   """Apply one header-rewrite action (tuple as in of10wire) to raw bytes."""
   k = a[0]
@@ -258,6 +262,11 @@ def apply_action(frame, a):
     return frame
   f = bytearray(frame)
   ihl = (f[off] & 0xf) * 4
+  fo0 = (f[off + 6] << 8) | f[off + 7]
+  if (fo0 & 0x3fff) and k != "set_nw_tos" and f[off + 9] in (6, 17):
+    # rewriting addresses/ports of a TCP/UDP *fragment*: whether and how the
+    # transport checksum is adjusted is not specified
+    raise Unspecified("L3/L4 rewrite of a TCP/UDP fragment")
   if k == "set_nw_src":
     f[off + 12:off + 16] = struct.pack("!L", a[1])
     return _fix_l4_sum(bytes(f), off)
